@@ -850,6 +850,100 @@ struct SeqRunner {
     }
     return true;
   }
+  // ---- an iterator held across other operations of the same thread (C09: "... or the same thread through other handles")
+  // it = find(k); 0-2 updates by key; then erase(it) or ++it. The expected position is exact: the element following k in a fresh
+  // iteration taken just before the action (if k itself was removed in between: the first element after k in compare order for the
+  // set, any present element or end for the map, whose bucket order the harness does not model).
+  std::vector<int> order_now() {
+    std::vector<int> v;
+    xrt::quiet_end();
+    ad->iterate([&](int k, int64_t) { v.push_back(k); });
+    xrt::quiet_begin();
+    return v;
+  }
+  bool hold_episode(Rng& rng, int nkeys) {
+    const int key = rng.range(1, nkeys);
+    const bool present = model.count(key) != 0;
+    xrt::quiet_end();
+    auto it = ad->c.find(Ad::mk(key));
+    const bool found = it != ad->c.end();
+    xrt::quiet_begin();
+    ++nops;
+    log.push_back(fmt("hold: it=find(k=%d)->%d", key, (int)found));
+    if (found != present) {
+      bad("seq-diff", fmt("find of key %d returned %d but the key was %s", key, (int)found, present ? "present" : "absent"));
+      return false;
+    }
+    if (!found)
+      return true;
+    const int64_t val0 = Ad::is_set ? 0 : model[key];
+    int nmid = (int)rng.below(3);
+    bool removed_mid = false; // the element under the iterator was removed in between (a later re-insertion is another incarnation)
+    for (int i = 0; i < nmid; ++i) {
+      static const uint8_t mid[] = {H_EMPLACE, H_ERASE, H_ERASE, H_GET_OR_EMPLACE, H_CONTAINS, H_EMPLACE_OR_GET};
+      int k2 = rng.chance(1, 4) ? key : rng.range(1, nkeys);
+      if (!step(mid[rng.below(sizeof mid)], k2))
+        return false;
+      if (!model.count(key))
+        removed_mid = true;
+    }
+    // the held iterator still refers to its element, whatever happened to the container
+    xrt::quiet_end();
+    const int kk = Ad::keyof(it);
+    const int64_t vv = Ad::val(it);
+    xrt::quiet_begin();
+    if (kk != key || (!Ad::is_set && vv != val0)) {
+      bad_c09("iterator-misbehaves", fmt("held iterator on (%d,%" PRId64 ") now dereferences to (%d,%" PRId64 ")", key, val0, kk, vv));
+      return false;
+    }
+    const std::vector<int> ord = order_now();
+    const bool still = !removed_mid && model.count(key) != 0;
+    int expect = -1; // -1: any present element other than `key`, or end
+    if (still) {
+      auto pos = std::find(ord.begin(), ord.end(), key);
+      expect = (pos == ord.end() || pos + 1 == ord.end()) ? 0 : *(pos + 1);
+    } else if (order) {
+      expect = 0;
+      for (int k : ord)
+        if (order > 0 ? k > key : k < key) {
+          expect = k;
+          break;
+        }
+    }
+    const bool do_erase = rng.chance(1, 2);
+    xrt::quiet_end();
+    int next_key;
+    if (do_erase) {
+      auto nx = ad->c.erase(std::move(it));
+      next_key = nx == ad->c.end() ? 0 : Ad::keyof(nx);
+    } else {
+      ++it;
+      next_key = it == ad->c.end() ? 0 : Ad::keyof(it);
+      it.reset();
+    }
+    xrt::quiet_begin();
+    ++nops;
+    log.push_back(fmt("hold: %s -> iterator on key %d (0 = end)", do_erase ? "erase(it)" : "++it", next_key));
+    if (log.size() > 14)
+      log.pop_front();
+    if (do_erase && still)
+      model.erase(key);
+    bool ok = expect >= 0 ? next_key == expect : (next_key == 0 || (next_key != key && model.count(next_key)));
+    if (!still && model.count(key) && next_key == key)
+      ok = true; // the key was re-inserted (another incarnation): it may legitimately lie ahead
+    if (!ok) {
+      bad_c09("iter-next-wrong", fmt("%s on a held iterator on key %d moved to key %d (0 = end), expected %s", do_erase ? "erase(iterator)" : "operator++", key,
+                                 next_key, expect >= 0 ? fmt("%d", expect).c_str() : "a present element or end"));
+      return false;
+    }
+    return compare_content();
+  }
+  void bad_c09(const char* kind, const std::string& msg) {
+    std::string w = fmt("after %" PRIu64 " operations; the last ones: ", nops);
+    for (auto& l : log)
+      w += l + "; ";
+    out.fail("C09", kind, msg + " - " + w);
+  }
   bool compare_content() {
     std::vector<std::pair<int, int64_t>> got;
     xrt::quiet_end();
@@ -876,14 +970,14 @@ struct SeqRunner {
 constexpr uint8_t SEQ_KINDS[] = {H_EMPLACE, H_EMPLACE_OR_GET, H_GET_OR_EMPLACE, H_GET_OR_EMPLACE_LAZY, H_ERASE, H_FIND_ERASE_IT, H_FIND, H_CONTAINS, H_INDEX};
 
 template <class Ad>
-void run_seq(int order, const ExecCtx& ctx, ExecOut& out) {
+void run_seq(int order, bool hold, const ExecCtx& ctx, ExecOut& out) {
   Rng rng(ctx.seed);
   SeqRunner<Ad> sr(order, out);
   const int NK = sizeof SEQ_KINDS;
   const int alphabet = NK * 2; // 9 operation kinds x 2 keys
   bool ok = true;
   uint64_t seqs = 0;
-  if (ctx.exec % 3 == 0) {
+  if (!hold && ctx.exec % 3 == 0) {
     // slice of the exhaustive enumeration: all sequences of length 4 over the alphabet = 104 976; 243 slices of 432 sequences
     const uint64_t total = (uint64_t)alphabet * alphabet * alphabet * alphabet;
     const uint64_t per = 432;
@@ -913,7 +1007,11 @@ void run_seq(int order, const ExecCtx& ctx, ExecOut& out) {
         kind = H_EMPLACE;
       if (bias == 2 && kind <= H_GET_OR_EMPLACE_LAZY && rng.chance(1, 2))
         kind = H_ERASE;
-      ok = sr.step(kind, rng.range(1, nkeys));
+      if (hold && rng.chance(1, 4)) {
+        ok = sr.hold_episode(rng, nkeys);
+        counters().add("hold_episodes");
+      } else
+        ok = sr.step(kind, rng.range(1, nkeys));
       if (ok && (i % 16 == 15 || i + 1 == len))
         ok = sr.compare_content();
     }
@@ -944,7 +1042,8 @@ template <class Ad>
 void reg(const std::string& name, int order = 0) {
   table().push_back({"lin_" + name, [](const ExecCtx& c, ExecOut& o) { run_harris<Ad>(false, c, o); }});
   table().push_back({"trav_" + name, [](const ExecCtx& c, ExecOut& o) { run_harris<Ad>(true, c, o); }});
-  table().push_back({"seq_" + name, [order](const ExecCtx& c, ExecOut& o) { run_seq<Ad>(order, c, o); }});
+  table().push_back({"seq_" + name, [order](const ExecCtx& c, ExecOut& o) { run_seq<Ad>(order, false, c, o); }});
+  table().push_back({"hold_" + name, [order](const ExecCtx& c, ExecOut& o) { run_seq<Ad>(order, true, c, o); }});
 }
 template <size_t B, class H, bool M>
 using Map = xenium::harris_michael_hash_map<int, int64_t, xp::reclaimer<R>, xp::buckets<B>, xp::hash<H>, xp::memoize_hash<M>>;
